@@ -61,6 +61,7 @@ def fmtPt (p : Pt) : String := ",".intercalate (p.map fmtRat)
 def fmtSample (s : Sample) : String := fmtPt s.pt ++ ":" ++ toString s.label
 def fmtData (d : Data) : String := if d.isEmpty then "-" else ";".intercalate (d.map fmtSample)
 def fmtNats (l : List Nat) : String := if l.isEmpty then "-" else ",".intercalate (l.map toString)
+def fmtInts (l : List Int) : String := if l.isEmpty then "-" else ",".intercalate (l.map toString)
 
 def fmtErr : Err → String
   | .notPerformed => "notPerformed" | .emptyInput => "emptyInput" | .dimMismatch => "dimMismatch"
@@ -109,7 +110,7 @@ def step (s : DS) (line : String) : DS × String :=
     | some st =>
       match perform (densOf s.table) st with
       | .error e => (s, "err " ++ fmtErr e)
-      | .ok st' => ({ s with st := some st' }, s!"ok K {st'.k} C {fmtNats st'.classes} D {st'.densities.length}")
+      | .ok st' => ({ s with st := some st' }, s!"ok K {st'.k} C {fmtInts st'.classes} D {st'.densities.length}")
     | none => (s, "bad-op")
   | ["pts", pr, d] =>
     match s.st, parsePre? pr, parseData? d with
@@ -125,19 +126,19 @@ def step (s : DS) (line : String) : DS × String :=
       | .error e => (s, "err " ++ fmtErr e)
       | .ok (st', r) =>
         let ev := if r.evaluated.isEmpty then "-" else
-          ";".intercalate (r.evaluated.map fun (p : Pt × Nat) => fmtPt p.1 ++ ":" ++ toString p.2)
+          ";".intercalate (r.evaluated.map fun (p : Pt × Int) => fmtPt p.1 ++ ":" ++ toString p.2)
         ({ s with st := some st' }, s!"ok E {ev} R {fmtData r.removed} D {st'.densities.length}")
     | _, _, _ => (s, "bad-op")
   | ["test", pr, d] =>
     match s.st, parsePre? pr, parseData? d with
     | some st, some pre, some d =>
       match test (densOf s.table) st { data := d, pre := pre } with
-      | .error e => (s, "err " ++ fmtErr e)
+      | .error e => ({ s with st := some (testFailState st { data := d, pre := pre }) }, "err " ++ fmtErr e)
       | .ok (st', r) =>
         let us := if r.used.isEmpty then "-" else
-          ";".intercalate (r.used.map fun (p : Sample × Nat) => fmtSample p.1 ++ ":" ++ toString p.2)
+          ";".intercalate (r.used.map fun (p : Sample × Int) => fmtSample p.1 ++ ":" ++ toString p.2)
         ({ s with st := some st' },
-          s!"ok U {us} O {fmtData r.omitted} R {fmtData r.removed} S {fmtSummary r.summary} C {fmtNats st'.classes} D {st'.densities.length}")
+          s!"ok U {us} O {fmtData r.omitted} R {fmtData r.removed} S {fmtSummary r.summary} C {fmtInts st'.classes} D {st'.densities.length}")
     | _, _, _ => (s, "bad-op")
   | ["evaluate"] =>
     match s.st with
@@ -149,7 +150,7 @@ def step (s : DS) (line : String) : DS × String :=
   | ["state"] =>
     match s.st with
     | some st =>
-      (s, s!"T {st.testing.length} C {fmtNats st.classes} D {st.densities.length} O {st.omitted.length} P {if st.performed then 1 else 0} K {st.k}")
+      (s, s!"T {st.testing.length} C {fmtInts st.classes} D {st.densities.length} O {st.omitted.length} P {if st.performed then 1 else 0} K {st.k}")
     | none => (s, "bad-op")
   | _ => (s, "bad-op")
 
